@@ -46,6 +46,10 @@ func genScript(t *rapid.T, timeout time.Duration, egress bool, host string) []Ne
 		switch {
 		case k < 8:
 			out = append(out, NetAction{Kind: "status", Status: rapid.SampledFrom(biasedStatuses).Draw(t, "status")})
+			if rapid.IntRange(0, 7).Draw(t, "bodycut") == 0 {
+				// the answer's status line and headers arrive, its body does not: the status stands
+				out[len(out)-1].BodyCut = true
+			}
 		case k == 8:
 			out = append(out, NetAction{Kind: "refused"})
 		case k == 9:
